@@ -578,7 +578,12 @@ def _unit(draw):
             pre = f"{dsname} = ds\n" + pre
             label += "+dataset-variable-name"
     pad = "\n" * draw(st.integers(0, 3))
-    return {"text": pad + pre + body + "\n", "supported": sup, "layout": label}
+    # the statement may start on the very FIRST line of its file (a script or notebook cell that starts with the query: the
+    # harness' own definitions then live in another module)
+    bare = draw(st.integers(0, 4)) == 0
+    if bare and draw(st.booleans()):
+        pad = ""
+    return {"text": pad + pre + body + "\n", "supported": sup, "layout": label, "bare": bare}
 
 
 def strategy(tier):
@@ -637,10 +642,19 @@ def check(case) -> Result:
     r.labels.append("layout:" + case["layout"].split("+")[0].split(":")[0])
     r.labels.append("supported" if case["supported"] else "may-refuse")
     text = PROLOGUE + case["text"]
+    pro = None
     try:
-        mod, err = srcgen.load_catching(text)
+        if case.get("bare"):
+            r.labels.append("file-holds-only-the-statement" + (":from-line-1" if not case["text"].startswith("\n") else ""))
+            pro = srcgen.load(PROLOGUE)
+            mod, err = srcgen.load_catching(case["text"], {k: v for k, v in pro.__dict__.items() if not k.startswith("__")})
+        else:
+            mod, err = srcgen.load_catching(text)
     except SyntaxError as e:
         raise AssertionError(f"harness: generated module does not compile: {e}\n{case['text']}")
+    finally:
+        if pro is not None:
+            srcgen.unload(pro)
     try:
         out = mod.__dict__.get("OUT", [])
         n_lambdas = case["text"].count("lambda ")
